@@ -49,6 +49,11 @@ class RecArray:
     def __getitem__(self, key):
         self.log.append(("read", self.name, self._norm(key)))
         key = key if isinstance(key, tuple) else (key,)
+        import numpy as np
+
+        fields = np.dtype(self.dtype).fields
+        if fields:  # structured arrays are read as a dict of per-field blocks (ZarrV3ArrayGroup.__getitem__)
+            return {f: anp.Src(self.name, tuple(k.start for k in key), tuple(k.stop - k.start for k in key), fields[f][0], f) for f in fields}
         return anp.Src(self.name, tuple(k.start for k in key), tuple(k.stop - k.start for k in key), self.dtype)
 
     def __setitem__(self, key, value):
